@@ -158,6 +158,8 @@ PROPS["C01"] = _pprop("ScpiVerif.Props.C01", [{"name": "p01", "cfgs": ["A", "B",
     ["C01.", "C15.write_beyond_buffer", "C14.write_beyond_buffer", "C15.nul_terminator", "C14.nul_terminator"],
     "mutated messages (byte flips, deletions, insertions, syntax characters, truncation), input buffers of 2..200 bytes, queue capacities 1..4, random segmentation with over-long chunks and zero-length calls, and sequences of NUL-terminated lines (well-formed, mutated, binary noise) handed straight to SCPI_Parse in exact-size objects, in all four build configurations under ASan+UBSan with the buffer-tail poisoning hook")
 
+PROPS["C04"]["tables"] = ["unit-multipliers"]      # a compiled value that differs from the source text breaks C04's tie
+
 NOT_CLAIMED = {}
 
 _T = {
